@@ -56,6 +56,23 @@ extern "C" void proof_ba_whole() {
   a.set();   VASSERT(C18, bit(a, j), "set() sets every bit");
   a.clear(); VASSERT(C18, !bit(a, j) && a.empty(), "clear() clears every bit");
 }
+// ---- code contracts (contracts/bitarray.spec): ghost index, constants, dfcc entry points
+extern "C" {
+unsigned ba_ghost;       // (ll2c prints globals with a G_ prefix: G_ba_ghost in the spec)
+unsigned ba_capacity(void) { return VP_N; }
+unsigned ba_units(void) { return UNITS; }
+void dfcc_ba_set()   { BA a; ba_ghost = nd_u16(); a.set((unsigned) nd_u16());   VREACH("the contract's precondition is satisfiable: the call returns"); }
+void dfcc_ba_clear() { BA a; ba_ghost = nd_u16(); a.clear((unsigned) nd_u16()); VREACH("the contract's precondition is satisfiable: the call returns"); }
+void dfcc_ba_get()   { BA a; bool r = a.get((unsigned) nd_u16()); (void) r;        VREACH("the contract's precondition is satisfiable: the call returns"); }
+// a caller verified against the callee CONTRACTS only: set(i); clear(j) with i != j; then get(i) is true and get(j) is false
+void dfcc_ba_client() {
+  BA a; unsigned i = nd_u16(), j = nd_u16(); VASSUME(i < VP_N && j < VP_N && i != j);
+  ba_ghost = j; a.set(i);        // the frame clause of set() is instantiated for bit j ...
+  ba_ghost = i; a.clear(j);      // ... and the one of clear() for bit i
+  __CPROVER_assert(a.get(i) && !a.get(j), "C18: client: set(i), clear(j), i != j: bit i is set and bit j is clear (by the callee contracts alone)");
+  VREACH("the callee contracts are consistent: the client reaches its end");
+}
+}
 // ---- views: Bits/CBits over [8*unit, 8*unit + width)
 extern "C" void proof_bits_view() {
   BA a; nd_ba(a); BA old = a;
